@@ -18,6 +18,7 @@ RULE = ('Hypothesis draws (T, v) and a reference encoding e (DER, CER, BER indef
         'EndOfStreamError within 4 steps after the close. evaluations = number of (prefix, presentation, guided?) runs; '
         'non-trivial = the cut falls inside an identifier, a length, an end-of-octets marker or directly on an element boundary '
         'inside the encoding (not in the middle of primitive contents); distinct = distinct (e, k, presentation).')
+RULE += (' ' + "Also: the open stream presented as an io.BytesIO subclass (the suite's own non-blocking idiom), and encodings longer than the caching wrapper's buffer cut beyond 8192 octets.")
 ASSUMPTIONS = ['TLV encodings are prefix-free: no proper prefix of a valid encoding is a complete encoding (asserted with the '
                'reference reader for every prefix)']
 SHARDS = {'quick': (16, 45), 'thorough': (16, 2000)}
